@@ -17,8 +17,7 @@ connection (C19), cancellation (C20), retained results (C17), a reset
 differential (C18), a pong (C08), an RSV1 rule of the message state (C13)),
 {no} not caught by design ({', '.join(sorted(nos))}:
 C16-m32 is `ws.ReadHeader` answering `io.EOF` for a cut inside a header with
-no message open, which only has to be an error; C19-m51 changes how messages
-are cut into fragments and nothing a session observes; C06-m69 makes a
+no message open, which only has to be an error; C06-m69 makes a
 zero-length copy followed by Flush send nothing, which is not demanded;
 C05-m65 wraps a protocol error with %w, which errors.As and errors.Is - the
 way the checks classify errors - still recognise). Waves 5-9 asked for
